@@ -2,8 +2,8 @@ package graph
 
 import (
 	"reflect"
-	"strings"
 	"strconv"
+	"strings"
 
 	"github.com/llir/llvm/ir"
 	"github.com/llir/llvm/ir/metadata"
